@@ -135,7 +135,7 @@ def h_compute(h):
     if h.cfg.get("ragged"):
         # limits whose extent is NOT a multiple of the cell size: the grid still has cells of the requested size
         # (the last centre may lie beyond the upper limit), the cell size is never adjusted to the limits
-        limits = [(0.25, 0.9), (1.0, 1.9 if h.cfg["ny"] == 2 else 3.4)]
+        limits = [(0.25, 0.9), (1.0, 1.9 if h.cfg["ny"] == 2 else (2.9 if h.cfg["scalar_delta"] else 3.4))]
     nx, ny = 2, h.cfg["ny"]
     dens = [[h.real(f"f{i}_{j}", 0.0, 1.0) for j in range(ny)] for i in range(nx)]
 
@@ -143,7 +143,8 @@ def h_compute(h):
         n_dim = 2
 
     def fake_joint(self, coords):
-        assert [len(c) for c in coords] == [nx, ny], [len(c) for c in coords]
+        if [len(c) for c in coords] != [nx, ny]:
+            raise sym.HarnessError(f"harness grid expectation wrong: {[len(c) for c in coords]} cells, expected {[nx, ny]}")
         return h.arr(dens) + 0.0   # fresh array: _compute scales it in place
 
     with warnings.catch_warnings(record=True) as w:
